@@ -19,6 +19,7 @@ NCPU = os.cpu_count() or 4
 
 SAN_FLAGS = {
     'asan': ['-O0', '-g', '-fsanitize=address,undefined', '-fno-sanitize-recover=all', '-fno-omit-frame-pointer'],
+    'asan1': ['-O1', '-g', '-fsanitize=address,undefined', '-fno-sanitize-recover=all', '-fno-omit-frame-pointer'],
     'tsan': ['-O1', '-g', '-fsanitize=thread', '-fno-omit-frame-pointer'],
     'plain': ['-O1', '-g'],
 }
